@@ -157,6 +157,28 @@ def summary(prog, body, depth=3, args=None, stop=None, effects=None):
             return None
 
 
+def _short(n):
+    """`<T as Trait<X>>::m` -> `Trait::m`; `a::b::Type::<T>::m` -> `Type::m`"""
+    import re as _re
+    prev = None
+    while prev != n:
+        prev = n
+        n = _re.sub(r"::<[^<>]*>", "", n)
+    m = _re.match(r"^<(.*) as (.*)>::(\w+)$", n)
+    if m:
+        tr = m.group(2)
+        prev = None
+        while prev != tr:
+            prev = tr
+            tr = _re.sub(r"<[^<>]*>", "", tr)
+        return tr.split("::")[-1] + "::" + m.group(3)
+    prev = None
+    while prev != n:
+        prev = n
+        n = _re.sub(r"<[^<>]*>", "", n)
+    return "::".join(n.split("::")[-2:])
+
+
 def fmt(t, short=True):
     k = t[0]
     if k == "p":
@@ -168,7 +190,7 @@ def fmt(t, short=True):
     if k == "call":
         n = t[1]
         if short:
-            n = "::".join(n.replace("<", "").replace(">", "").split("::")[-2:]) if "::" in n else n
+            n = _short(n)
         return "%s(%s)" % (n, ", ".join(fmt(a, short) for a in t[2]))
     if k == "adt":
         return "%s#%s(%s)" % (t[1], t[2], ", ".join(fmt(a, short) for a in t[3]))
@@ -190,4 +212,243 @@ def fmt(t, short=True):
         return "(%s as %s)" % (fmt(t[2], short), t[1])
     if k == "store":
         return "%s := %s" % (fmt(t[1], short), fmt(t[2], short))
+    if k == "is":
+        return "%s is %s" % (fmt(t[1], short), t[2])
+    if k == "not":
+        return "%s is not %s" % (fmt(t[1], short), t[2])
+    if k in ("eq", "ne"):
+        return "%s %s %s" % (fmt(t[1], short), "==" if k == "eq" else "!=", t[2])
+    if k == "diverges":
+        return "!"
     return "<%s>" % "/".join(str(x) for x in t)
+
+
+# ---------------------------------------------------------------------------------------------- path-sensitive traces
+
+def paths(prog, body, depth=2, stop=None, max_paths=24):
+    """for a loop-free body: [(conditions, trace, return term)] for every path. conditions: ("is", term, variant) /
+    ("not", ..) / ("true"|"false", term); trace: the calls that are not inlined, in execution order, each
+    ("call", name, args) with earlier call results referenced structurally. None when the body loops or has too many paths.
+    Assert terminators (overflow / bounds checks) are followed on their success edge."""
+    import re as _re
+    out = []
+
+    def variant_name(ty, idx):
+        t = _re.sub(r"^&(mut )?", "", ty)
+        t = _re.sub(r"<.*$", "", t)
+        adt = prog.adts.get(t)
+        try:
+            return adt["variants"][int(idx)]["name"]
+        except Exception:
+            if t.endswith("option::Option"):
+                return {"0": "None", "1": "Some"}.get(str(idx), str(idx))
+            if t.endswith("result::Result"):
+                return {"0": "Ok", "1": "Err"}.get(str(idx), str(idx))
+            return str(idx)
+
+    def run(cur, env, conds, trace, seen):
+        while True:
+            if len(out) > max_paths:
+                return False
+            if cur in seen:
+                return False
+            seen = seen | {cur}
+            blk = body.blocks[cur]
+
+            def place(p):
+                t = env.get(p["l"], ("local", p["l"]))
+                for e in p["p"]:
+                    if e == "*":
+                        continue
+                    if e.startswith("@"):
+                        t = ("downcast", e[1:], t)
+                        continue
+                    if e.startswith("."):
+                        try:
+                            idx = int(e[1:])
+                        except ValueError:
+                            t = ("proj", e, t)
+                            continue
+                        if t[0] == "downcast" and t[1] == "Continue" and idx == 0 and t[2][0] == "call" and t[2][1].endswith("Try>::branch"):
+                            t = ("try", t[2][2][0])
+                        elif t[0] == "adt" and idx < len(t[3]):
+                            t = t[3][idx]
+                        elif t[0] == "tuple" and idx < len(t[1]):
+                            t = t[1][idx]
+                        elif t[0] == "downcast":
+                            t = ("field", str(idx), t)
+                        else:
+                            t = ("field", _field(prog, body, p["l"], idx) if len(p["p"]) <= 2 else str(idx), t)
+                    else:
+                        t = ("proj", e, t)
+                return t
+
+            def operand(op):
+                p = op_place(op)
+                if p is not None:
+                    return place(p)
+                c = op_const(op)
+                if c is None:
+                    return ("?",)
+                if "fn" in c:
+                    return ("fn", c.get("resolved") or c["fn"])
+                for k in ("str", "int", "bool"):
+                    if k in c:
+                        return ("const", str(c[k]))
+                return ("const", c.get("ty", "?"))
+            for st in blk["stmts"]:
+                if st["k"] != "Assign":
+                    continue
+                rv = st["rv"]
+                k = rv["k"]
+                if st["place"]["p"]:
+                    val = operand(rv["ops"][0]) if k == "Use" else ("rv", k)
+                    trace = trace + [("store", place(st["place"]), val)]
+                    continue
+                if k == "Use":
+                    t = operand(rv["ops"][0])
+                elif k in ("Ref", "RawPtr", "CopyForDeref"):
+                    t = place(rv["place"])
+                elif k == "Cast":
+                    t = operand(rv["ops"][0])
+                elif k == "Aggregate":
+                    if rv.get("agg") == "Adt":
+                        t = ("adt", rv["adt"].split("::")[-1], rv.get("variant"), tuple(operand(o) for o in rv["ops"]))
+                    elif rv.get("agg") == "Tuple":
+                        t = ("tuple", tuple(operand(o) for o in rv["ops"]))
+                    elif rv.get("agg") == "Closure":
+                        t = ("closure", rv["def"].split("::")[-1], tuple(operand(o) for o in rv["ops"]))
+                    else:
+                        t = ("agg", rv.get("agg"), tuple(operand(o) for o in rv["ops"]))
+                elif k in ("BinaryOp", "UnaryOp"):
+                    t = ("op", rv.get("op"), tuple(operand(o) for o in rv["ops"]))
+                elif k == "Discriminant":
+                    t = ("discr", place(rv["place"]), body.local_ty(rv["place"]["l"]) if not [e for e in rv["place"]["p"] if e != "*"] else "")
+                else:
+                    t = ("rv", k)
+                env = dict(env)
+                env[st["place"]["l"]] = t
+            term = blk["term"]
+            k = term["k"]
+            if k == "Return":
+                out.append((tuple(conds), list(trace), env.get(0, ("unit",))))
+                return True
+            if k in ("Goto", "Drop", "Assert"):
+                cur = term["target"]
+                continue
+            if k == "Call":
+                f, r = callee_of(term)
+                name = r or f or "<indirect>"
+                a = tuple(operand(x) for x in term["args"])
+                t = None
+                cb = prog.bodies.get(name)
+                if cb is not None and depth > 0 and cb is not body and not (stop and _re.search(stop, name)):
+                    t = summary(prog, cb, depth - 1, list(a), stop)
+                if t is None:
+                    t = ("call", name, a)
+                    if not name.endswith("Try>::branch"):
+                        trace = trace + [t]
+                env = dict(env)
+                env[term["dest"]["l"]] = t
+                if term.get("target") is None:
+                    out.append((tuple(conds), list(trace), ("diverges",)))
+                    return True
+                cur = term["target"]
+                continue
+            if k == "SwitchInt":
+                d = operand(term["discr"])
+                if "operator `?`" in (term.get("macro") or ""):
+                    nxt = [b for v, b in term["targets"] if v == "0"]
+                    if nxt:
+                        cur = nxt[0]
+                        continue
+                taken = []
+                for v, b in term["targets"]:
+                    if d[0] == "discr":
+                        c = ("is", d[1], variant_name(d[2], v), d[2])
+                    elif d[0] == "const":
+                        c = None
+                    else:
+                        c = ("eq", d, v)
+                    taken.append(c)
+                    if body.blocks[b]["term"]["k"] == "Unreachable":
+                        continue
+                    if not run(b, env, conds + ([c] if c else []), trace, seen):
+                        return False
+                ob = term["otherwise"]
+                if body.blocks[ob]["term"]["k"] != "Unreachable":
+                    neg = [("not",) + tuple(c[1:]) if c and c[0] == "is" else (("ne",) + tuple(c[1:]) if c else None) for c in taken]
+                    if not run(ob, env, conds + [n for n in neg if n], trace, seen):
+                        return False
+                return True
+            if k == "Unreachable":
+                return True
+            return False
+
+    env0 = {i: ("p", i) for i in range(1, body.arg_count + 1)}
+    ok = run(0, env0, [], [], frozenset())
+    return out if ok else None
+
+
+def _variants(prog, ty):
+    import re as _re
+    t = _re.sub(r"^&(mut )?", "", ty or "")
+    t = _re.sub(r"<.*$", "", t)
+    if t.endswith("option::Option"):
+        return ["None", "Some"]
+    if t.endswith("result::Result"):
+        return ["Ok", "Err"]
+    adt = prog.adts.get(t) if prog is not None else None
+    if adt and len(adt.get("variants", [])) > 1:
+        return [v["name"] for v in adt["variants"]]
+    return None
+
+
+def canon_conds(prog, ps):
+    """paths that only differ by which variant of one scrutinee was taken and do the same thing are one path
+    `x is not {the variants handled differently}`; `x is not V` on a two-variant type is `x is W`"""
+    out = []
+    groups = {}
+    for conds, trace, ret in ps:
+        key = (repr(trace), repr(ret), repr(conds[:-1]))
+        last = conds[-1] if conds else None
+        if last is not None and last[0] in ("is", "not") and len(last) > 3:
+            groups.setdefault((key, repr(last[1])), []).append((conds, trace, ret))
+        else:
+            out.append((conds, trace, ret))
+    for (key, _t), members in groups.items():
+        conds, trace, ret = members[0]
+        last = conds[-1]
+        vs = _variants(prog, last[3])
+        taken = set()
+        for c2, _tr, _r in members:
+            l2 = c2[-1]
+            if l2[0] == "is":
+                taken.add(l2[2])
+            elif vs:
+                taken |= set(vs) - set(l2[2].split("|"))
+            else:
+                taken.add("!" + l2[2])
+        if vs and not any(x.startswith("!") for x in taken):
+            rest = [v for v in vs if v not in taken]
+            if len(taken) == 1:
+                nc = ("is", last[1], next(iter(taken)))
+            else:
+                nc = ("not", last[1], "|".join(sorted(rest)))
+        elif len(members) == 1:
+            nc = last[:3]
+        else:
+            nc = ("is", last[1], "|".join(sorted(taken)))
+        out.append((tuple(conds[:-1]) + (nc,), trace, ret))
+    return out
+
+
+def fmt_paths(ps, prog=None):
+    """canonical multi-line text of paths(): one line per path, sorted"""
+    lines = []
+    ps = canon_conds(prog, ps)
+    for conds, trace, ret in ps:
+        c = " & ".join(fmt(x) for x in conds) or "always"
+        t = "; ".join(fmt(x) for x in trace)
+        lines.append("[%s] %s%s=> %s" % (c, t, " " if t else "", fmt(ret)))
+    return sorted(lines)
